@@ -31,6 +31,7 @@ from .pending import PendingSummary, analyze_pending
 from .reporter import ReporterClient
 from .scheduler import Scheduler
 from .sqlite3 import DBSession
+from .step import Step
 from .workflow import GlobViolation, Workflow
 
 __all__ = ("remove_deletable_files", "report_unbuilt", "revert_optional_steps")
@@ -450,6 +451,16 @@ async def revert_optional_steps(workflow: Workflow, reporter: ReporterClient):
             for path in to_be_deleted:
                 workflow.mark_dir_to_be_deleted(Path(path).parent)
             db.execute(UPDATE_OPTIONAL_TO_BE_DELETED)
+        # A reverted step counts as never run, so it also has to forget what it amended or
+        # created while running, as it would right before a rerun.
+        # It will not rerun as long as it is not needed, and until then its amended inputs
+        # would keep detached producers and their outputs alive,
+        # and its amended outputs would keep their claim on paths.
+        # This includes optional steps that are pending already, e.g. after an input changed.
+        # (After the outputs were reset, so there is nothing left to mark as outdated.)
+        rows = db.execute("SELECT i, label FROM optional_step").fetchall()
+        for i, label in rows:
+            Step(workflow, i, label).reset_for_rerun()
         # Drop in the end: the temp tables are only needed for the duration of this call.
         _drop_optional_tables(db)
     # Report the reverted steps and the files that are marked for deletion.
